@@ -78,6 +78,14 @@ class PyEcoreValue(object):
                                      'nor generic')
         if not _isinstance(value, etype):
             raise BadValueError(value, etype, feature)
+        # the other end will hold the owner: it has a type as well (a
+        # reference declared on a supertype may have an opposite typed by a
+        # subtype); refusing here keeps the call from half-happening
+        if self.is_ref and value is not None:
+            opposite = feature.eOpposite
+            if opposite is not None and opposite._eType \
+                    and not _isinstance(self.owner, opposite._eType):
+                raise BadValueError(self.owner, opposite._eType, opposite)
 
     def _update_container(self, value, previous_value=None):
         if not self.is_cont:
